@@ -12,8 +12,9 @@ import json, os, shutil, tempfile
 import vlib
 from vlib import hexs
 
-REQUIRED = ['src_is_repaired', 'exists_iff_mailbox', 'rejected_otherwise', 'confined', 'consulted_inside',
-            'config_inside', 'orig_not_confined', 'orig_accepts_foreign_prefix', 'orig_long_name_is_error']
+REQUIRED = ['src_is_repaired', 'exists_iff_mailbox', 'rejected_otherwise', 'result_is_ladder', 'mailboxExists_forms',
+            'confined', 'confined_of_shape', 'consulted_inside', 'config_inside', 'domain_lookup',
+            'orig_not_confined', 'orig_accepts_foreign_prefix', 'orig_long_name_is_error']
 
 BOUNCE = b'|/home/vpopmail/bin/vdelivermail \'\' bounce-no-mailbox\n'
 DOM = b'example.org'
@@ -42,7 +43,7 @@ def line(local, domain=DOM, tail=None, vpb=BOUNCE, flags=0, cdb=None, dom=(), pa
     for e in dom:                      # a directory cannot hold two entries of one name
         if okname(e[0]) and e[0] not in seen:
             seen.add(e[0]); dd.append(e)
-    injs = ','.join('%s:%d' % (p if p == '#read' else hexs(p), e) for p, e in inj) or '-'
+    injs = ','.join('%s:%d' % (p if p in ('#read', '#mmap') else hexs(p), e) for p, e in inj) or '-'
     return 'ue %s %s %s %s %d %s %s %s %s' % (hexs(local), hexs(tail), hexs(domain), '!' if vpb is None else hexs(vpb),
                                               flags, cdbs, ents(dd), ents(par), injs)
 
@@ -125,13 +126,6 @@ def gen_cases(ctx):
     def add(l, tag):
         cases.append(l); ctx.count('shape:' + tag)
 
-    cdir = os.path.join(vlib.VERIF, 'corpus', 'C13')
-    if os.path.isdir(cdir):
-        for f in sorted(os.listdir(cdir)):
-            for ln in open(os.path.join(cdir, f)):
-                if ln.strip() and not ln.startswith('#'):
-                    add(ln.strip(), 'corpus')
-
     def catchall(which=None):
         k, c = which or rng.choice(CATCHALL)
         return [] if c is None else [(b'.qmail-default', 'f', c)]
@@ -141,7 +135,7 @@ def gen_cases(ctx):
     alpha = [b'a', b'.', b'-', b'/']
     locs = [b'']
     allocs = []
-    for _ in range(4 if quick else 5):
+    for _ in range(5 if quick else 6):
         locs = [l + c for l in locs for c in alpha]
         allocs += locs
     for local in allocs:
@@ -166,7 +160,7 @@ def gen_cases(ctx):
                     add(line(local, tail=tail, dom=([e] if e else []) + catchall(ca) + [DOMFC], par=PARENT, vpb=vpb), 'forms:' + kind)
     # (b) structured mostly valid: realistic local parts, random subsets of the candidates
     words = [b'postmaster', b'info', b'john', b'j.doe', b'list', b'owner', b'sub', b'ml', b'a', b'b', b'x.y.z', b'"q d"', b'+tag', b'=', b'0']
-    n_struct = 2500 if quick else 40000
+    n_struct = 8000 if quick else 250000
     for _ in range(n_struct):
         parts = [rng.choice(words) for _ in range(rng.randrange(1, 5))]
         local = rng.choice([b'-', b'.', b'-', b'']).join(parts) if rng.random() < 0.9 else rng.choice([b'.', b'..', b'...', b'.-', b'-.'])
@@ -194,10 +188,10 @@ def gen_cases(ctx):
             cdb = rng.choice(['!', 'dir', '-'])
         domain = DOM if rng.random() < 0.85 else rng.choice([b'other.net', b'example.or', b'xexample.org', b'', b'e' * 259, b'e' * 260, b'e' * 261, b'e' * 262, b'e' * 300])
         add(line(local, domain=domain, tail=tail, dom=lay + extra + catchall() + ([DOMFC] if rng.random() < 0.7 else []), par=PARENT,
-                 vpb=rng.choice([BOUNCE, BOUNCE, None, b'', b'x', BOUNCE[:-1]]), cdb=cdb), 'structured')
+                 vpb=rng.choice([BOUNCE, BOUNCE, None, b'', b'x', BOUNCE[:-1]]), cdb=cdb, flags=rng.choice([0, 0, 0, 4])), 'structured')
     # users/cdb as a real constant database image (cdb_hash / cdb_seekmm themselves): many records, several keys in one
     # hash table, duplicate keys (first record wins), near-miss keys, the wanted key first / last / absent
-    for _ in range(400 if quick else 5000):
+    for _ in range(800 if quick else 15000):
         n = rng.choice([0, 1, 2, 3, 5, 10, 40, 300])
         doms = [b'd%d.example.org' % i for i in range(n)]
         if rng.random() < 0.3:
@@ -214,7 +208,7 @@ def gen_cases(ctx):
         local = rng.choice([b'user', b'nouser', b'a-b'])
         add(line(local, dom=[(b'user', 'd', b'fc\n'), DOMFC], par=PARENT, cdb='raw:' + cdb_image(recs).hex()), 'cdb-image')
     # lengths around every threshold: NAME_MAX - |.qmail-| - |-default| = 240, NAME_MAX - 7 = 248, NAME_MAX = 255
-    for L in list(range(236, 260)) + [300, 500, 900, 990]:
+    for L in list(range(236, 260)) + [300, 500, 900, 990, 4070, 4080, 4081, 4082, 4088, 4089, 4090, 4095, 4096, 5000]:
         for shape in ('plain', 'dash', 'dots'):
             if shape == 'plain':
                 local = b'a' * L
@@ -232,7 +226,7 @@ def gen_cases(ctx):
                     lay = [(local, 'd', b'fc\n')]
                 add(line(local, dom=lay + [DOMFC], par=PARENT), 'length:' + lay_kind)
     # (c) malformed / random bytes
-    for _ in range(600 if quick else 8000):
+    for _ in range(2000 if quick else 60000):
         L = rng.choice([1, 1, 2, 2, 3, 5, 8, 20, 100, 254, 255, 256])
         pool = rng.choice([bytes(range(1, 256)), b'./-a', b'../', b'.:-ab"\\', bytes(range(33, 127))])
         local = bytes(rng.choice(pool) for _ in range(L))
@@ -241,7 +235,7 @@ def gen_cases(ctx):
         lay = [e for _, e in cand if rng.random() < 0.3]
         add(line(local, tail=tail, dom=lay + catchall() + [DOMFC], par=PARENT, vpb=rng.choice([BOUNCE, None])), 'random')
     # (d) error injection on every probe (EACCES, resource exhaustion, I/O errors), err_control() failing
-    for _ in range(1200 if quick else 15000):
+    for _ in range(4000 if quick else 120000):
         local = rng.choice([b'user', b'a-b-c', b'x.y', b'list-owner', b'u' * 250])
         tail = b'@' + DOM
         cand = candidates(local, tail)
@@ -252,9 +246,31 @@ def gen_cases(ctx):
         inj = list({p: e for p, e in inj}.items())
         if rng.random() < 0.15:
             inj.append(('#read', rng.choice([5, 21, 4])))
-        add(line(local, tail=tail, dom=lay + catchall() + [DOMFC], par=PARENT, flags=rng.choice([0, 0, 1]), inj=inj,
+        if rng.random() < 0.08:
+            inj.append(('#mmap', rng.choice([12, 23, 24, 19, 13])))
+        add(line(local, tail=tail, dom=lay + catchall() + [DOMFC], par=PARENT, flags=rng.choice([0, 0, 1, 4, 5]), inj=inj,
                  vpb=rng.choice([BOUNCE, None])), 'inject')
+    # the same struct userconf used twice (global cache of MAIL FROM): cached domain path, descriptor bookkeeping
+    for _ in range(600 if quick else 20000):
+        local = rng.choice([b'user', b'nouser', b'a-b-c', b'x.y', b'..', b'a/b'])
+        cand = candidates(local, b'@' + DOM)
+        lay = [e for _, e in cand if rng.random() < 0.3]
+        inj = [(rng.choice([local, b'.qmail-default', b'doms/dom/']), rng.choice(ERRNOS))] if rng.random() < 0.2 else []
+        add(line(local, dom=lay + catchall() + ([DOMFC] if rng.random() < 0.5 else []), par=PARENT, flags=2 + rng.choice([0, 0, 4, 1]),
+                 inj=inj, vpb=rng.choice([BOUNCE, None]), cdb=rng.choice([None, None, '!', [(b'!' + DOM + b'-', cdbval(b'doms/missing'))]])), 'twice')
     return cases
+
+
+def corpus_files():
+    """[(file name, [protocol lines])]: every corpus file is its own job, so that each past witness is reported by itself"""
+    cdir = os.path.join(vlib.VERIF, 'corpus', 'C13')
+    res = []
+    if os.path.isdir(cdir):
+        for f in sorted(os.listdir(cdir)):
+            lines = [ln.strip() for ln in open(os.path.join(cdir, f)) if ln.strip() and not ln.startswith('#')]
+            if lines:
+                res.append((f, lines))
+    return res
 
 
 def pred(case, impl):
@@ -266,6 +282,24 @@ def pred(case, impl):
 def fields(case):
     t = case.split()
     return {'local': vlib.unhex(t[1]), 'tail': vlib.unhex(t[2]), 'domain': vlib.unhex(t[3])}
+
+
+def decode(out):
+    """human readable form of an answer line"""
+    res = []
+    for t in out.split():
+        k, _, v = t.partition('=')
+        try:
+            if k in ('dp', 'dom', 'usr') and v != '-':
+                v = repr(vlib.unhex(v))
+            elif k == 'gf' and ':' in v and not v.split(':')[1].startswith('E'):
+                v = v.split(':')[0] + ':' + repr(vlib.unhex(v.split(':')[1]))
+            elif k == 'opened' and v != '-':
+                v = ','.join('%r/%r' % tuple(vlib.unhex(x) for x in e.split(':')) for e in v.split(','))
+        except ValueError:
+            pass
+        res.append('%s=%s' % (k, v))
+    return ' '.join(res)
 
 
 def known_class(finding, case, impl, clause):
@@ -317,6 +351,10 @@ def run(ctx):
             cmd = ['env', 'H_VPOP_BASE=' + base, h]
             lim = vlib.run_batch(cmd, ['limits'])[0]
             ctx.notes.append('harness limits: ' + lim)
+            corr = 'model QsmtpModel.Vpop.userExists/getfile vs vpop.c:user_exists + getfile.c:getfile on real directory trees'
+            for f, lines in corpus_files():
+                ctx.count('shape:corpus', len(lines))
+                vlib.differential(ctx, 'corpus:' + f, cmd, lines, pred=pred, known_class=known_class, corr_name=corr)
             cases = gen_cases(ctx)
             res = vlib.differential(ctx, 'user_exists', cmd, cases, pred=pred, known_class=known_class,
                                     nontrivial=lambda c, o: 'opened=-' not in o,
@@ -326,12 +364,27 @@ def run(ctx):
                 r = t.get('r', 'FAULT')
                 ctx.count('result:' + (r if r in ('0', '1', '2', '4', '5') else ('error' if r.startswith('-') else r)))
                 ctx.count('filterconf-level:' + t.get('gf', '-').split(':')[0])
+                ctx.count('fdleak:' + t.get('fdleak', '?'))
                 if c.split()[6].startswith('raw:'):
                     ctx.count('cdb-image-result:' + r)
     finally:
         shutil.rmtree(base, ignore_errors=True)
     if not ctx.quick():
-        vlib.leanchecker(ctx, ['QsmtpModel.Props.C13', 'QsmtpModel.Lemmas.Vpop'])
+        # leanchecker replays the compiled modules; checks of other properties started meanwhile with another QSMTP_SRC
+        # regenerate Gen/ in the shared lake directory, so bring it back to this tree under the lock first
+        import fcntl, extract
+        lock = open(os.path.join(vlib.LEAN, '.lock'), 'w')
+        fcntl.flock(lock, fcntl.LOCK_EX)
+        try:
+            extract.run(vlib.SRC, os.path.join(vlib.LEAN, 'QsmtpModel', 'Gen'))
+            r = vlib.sh(['lake', 'build', 'QsmtpModel.Props.C13'], cwd=vlib.LEAN)
+            if r.returncode != 0:
+                ctx.unshown.append('proof of QsmtpModel.Props.C13 does not check (rebuild before leanchecker)')
+            else:
+                vlib.leanchecker(ctx, ['QsmtpModel.Props.C13', 'QsmtpModel.Lemmas.Vpop'])
+        finally:
+            fcntl.flock(lock, fcntl.LOCK_UN)
+            lock.close()
     return vlib.finish(ctx, assumptions=[
         'the directory tree answers single-component lookups; symbolic links placed inside the domain directory by its owner are outside the model',
         'users/cdb values hold four NUL terminated fields (written by qmail-newu/vpopmail); users/cdb is a finite map, first record wins',
@@ -356,6 +409,7 @@ def replay(ctx, path):
     print('case    :', case[:400])
     print('local   : %r  tail: %r  domain: %r' % (f['local'][:80], f['tail'][:80], f['domain'][:80]))
     print('impl    :', out[:600])
+    print('          ' + decode(out))
     if ctx.driver:
         print('model   :', vlib.run_batch(ctx.driver, [case])[0][:600])
         print('property:', vlib.run_batch(ctx.driver, [pred(case, out)])[0])
